@@ -843,6 +843,103 @@ theorem nullAt_of_no_col (d : Data) (t c : String) (h : hasCol (schemaOf d) t c 
   intro T hT hc
   simp [hasCol, colsOf_schemaOf, hT, hc] at h
 
+/-! ### values follow renames -/
+
+/-- one successful statement: the value is found under the name `Stmt.track` says -/
+theorem cellOf_onRow_track (d d' : Data) (st : Stmt) (t c c' : String) (r : Row) (v : Cell)
+    (hd : wfData d = true) (h : applyStmtR d st = some d') (hr : r ∈ rowsOf d t)
+    (hv : cellOf r c = some v) (ht : st.track t c = some c') :
+    cellOf (st.onRow t r) c' = some v := by
+  cases st with
+  | addColumn t' x =>
+    simp only [Stmt.track, Option.some.injEq] at ht
+    subst ht
+    simp only [Stmt.onRow]
+    split
+    · exact cellOf_append_left r _ c v hv
+    · exact hv
+  | createTable t' cols =>
+    simp only [Stmt.track, Option.some.injEq] at ht
+    subst ht
+    exact hv
+  | dropColumn t' x =>
+    simp only [Stmt.track] at ht
+    split at ht
+    · cases ht
+    · rename_i hg
+      simp only [Option.some.injEq] at ht
+      subst ht
+      simp only [Stmt.onRow]
+      split
+      · rename_i htt
+        have hcx : c ≠ x := fun e => hg ⟨htt, e⟩
+        rw [cellOf_rowDrop_other c x r hcx]; exact hv
+      · exact hv
+  | renameColumn t' a b =>
+    -- the guard of the statement, read on this row
+    have guard : t' = t → b ∉ keysOf r := by
+      intro htt
+      subst htt
+      simp only [applyStmtR] at h
+      cases hf : findT d t' with
+      | none => simp [hf] at h
+      | some T =>
+        simp only [hf] at h
+        split at h
+        · rename_i hg
+          simp only [rowsOf, hf] at hr
+          rw [(wfData_iff d).mp hd T (findT_mem d t' T hf).1 r hr]
+          exact hg.2
+        · cases h
+    simp only [Stmt.track] at ht
+    split at ht
+    · rename_i hg
+      simp only [Option.some.injEq] at ht
+      subst ht
+      simp only [Stmt.onRow, hg.1, if_true]
+      rw [cellOf_rowRename_target a b r (guard hg.1), ← hg.2]
+      exact hv
+    · rename_i hg
+      simp only [Option.some.injEq] at ht
+      subst ht
+      simp only [Stmt.onRow]
+      split
+      · rename_i htt
+        have hca : c ≠ a := fun e => hg ⟨htt, e⟩
+        have hcb : c ≠ b := fun e => guard htt (e ▸ cellOf_mem r c v hv)
+        rw [cellOf_rowRename_other a b c r hca hcb]; exact hv
+      · exact hv
+
+/-- the loop: the value of column `c` is found under the name `logTrack` says -/
+theorem cell_tracked (d : Data) (l : List Stmt) (t c c' : String) (hd : wfData d = true)
+    (r : Row) (hr : r ∈ rowsOf d t) (v : Cell) (hv : cellOf r c = some v)
+    (ht : logTrack t (runStmtsR d l).2 c = some c') :
+    cellOf (logOnRow t (runStmtsR d l).2 r) c' = some v := by
+  induction l generalizing d r c with
+  | nil =>
+    simp only [runStmtsR, logTrack, Option.some.injEq] at ht
+    subst ht
+    simpa [runStmtsR, logOnRow] using hv
+  | cons st rest ih =>
+    simp only [runStmtsR] at ht ⊢
+    cases h : applyStmtR d st with
+    | none =>
+      simp only [h, logTrack, Bool.false_eq_true, if_false] at ht
+      simp only [logOnRow, Bool.false_eq_true, if_false]
+      exact ih d c hd r hr hv ht
+    | some d' =>
+      simp only [h, logTrack, if_true] at ht
+      simp only [logOnRow, if_true]
+      cases hm : st.track t c with
+      | none => simp [hm] at ht
+      | some c1 =>
+        simp only [hm, Option.bind_some] at ht
+        apply ih d' c1 (wf_applyStmtR d d' st hd h)
+        · rw [rowsOf_applyStmtR d d' st t h]
+          exact List.mem_map_of_mem hr
+        · exact cellOf_onRow_track d d' st t c c1 r v hd h hr hv hm
+        · exact ht
+
 /-! ### the steps still outstanding are among the steps -/
 
 theorem getSteps_subset (tbl : Table) (r : Option String) : ∀ s ∈ getSteps tbl r, s ∈ tbl.steps := by
